@@ -17,6 +17,12 @@ pub mod neon_gen {
 pub mod props;
 pub mod real;
 
+/// the repository under test (default /repo; VERIF_REPO selects a copy, used only for
+/// side experiments such as background thorough runs and mutant testing on a scratch copy)
+pub fn repo_dir() -> String {
+    std::env::var("VERIF_REPO").unwrap_or_else(|_| "/repo".to_string())
+}
+
 pub fn verif_dir() -> String {
     std::env::var("VERIF_DIR").unwrap_or_else(|_| "/verif".to_string())
 }
